@@ -121,6 +121,32 @@ LIBCFG_MOD = 8    # one macro-free call in eight gets a complete rule file (with
 DEBUGLOG_MOD = 16  # one call in sixteen runs with the library logger at DEBUG level
 
 
+INTERLEAVE_MOD = 8  # one call in eight: between constructing the matcher and asking it, another matcher is constructed for the same rule with both full-match flags flipped
+
+
+def _construct_flag_flipped_twin(rule_path, input_path, binary, macros):
+    """Construct (and drop) a MasterOfPuppets for the same rule with `mnemonics-full-match` and `operands-full-match` flipped and
+    everything else in its config as it is.  A rule is compiled when its matcher is constructed, so what the first matcher answers
+    afterwards must not change (holds on the pinned tree: the flags are read during compilation only; range, sections and style
+    are the same in both rules)."""
+    try:
+        with open(rule_path, encoding="utf-8") as f:
+            doc = yaml.safe_load(f)
+        if not isinstance(doc, dict) or "pattern" not in doc or not isinstance(doc.get("config") or {}, dict):
+            return
+        cfg = dict(doc.get("config") or {})
+        for flag in ("mnemonics-full-match", "operands-full-match"):
+            cfg[flag] = not bool(cfg.get(flag))
+        twin = {"config": cfg, **{k: v for k, v in doc.items() if k != "config"}}
+        twin_path = rule_path + ".twin.yaml"
+        with open(twin_path, "w", encoding="utf-8") as f:
+            yaml.safe_dump(twin, f, sort_keys=False)
+        MasterOfPuppets(MatchConfig(pattern_pathstr=twin_path, input_file=input_path, input_file_type=InputFileType.binary if binary else InputFileType.assembly,
+                                    return_only_address=False, return_mode=RM["list"], matching_mode=SM["all"], macros=macros))
+    except (Exception, AssertionError):  # noqa: BLE001 - a twin that cannot be built is no twin
+        return
+
+
 def _selector(rule_path, mode, search, only_addr, input_path=None):
     """A number derived from the rule text, the input and the modes: the variations above are a function of the call, not of chance.
     (The input is part of it since round 7: checks that always ask with the same rule - the stream of a listing - would otherwise
@@ -193,6 +219,8 @@ def match_files(rule_path, input_path, mode="list", search="all", only_addr=Fals
             )
 
         mop = build(mode, search, only_addr)
+        if INTERLEAVE_MOD and not single_read and _selector(rule_path, mode, search, only_addr, input_path) % INTERLEAVE_MOD == 5:
+            _construct_flag_flipped_twin(rule_path, input_path, binary, macros)
         res = mop.perform_matching()
         if reuse:
             # Asking the same MasterOfPuppets again must give the same answer (C14: repeating an operation gives the same
